@@ -24,7 +24,7 @@ QuoteOf(seg, d) == LET c == seg.cal[CHOOSE n \in DOMAIN seg.cal : seg.cal[n][1] 
 Lo(seg) == (CHOOSE x \in CalDays(seg) \cup {seg.today} : \A y \in CalDays(seg) \cup {seg.today} : x <= y) - 40
 Hi(seg) == (CHOOSE x \in CalDays(seg) \cup {seg.today} : \A y \in CalDays(seg) \cup {seg.today} : y <= x) + 40
 World(seg) == [pub |-> [d \in Lo(seg)..Hi(seg) |-> IF d \in CalDays(seg) THEN d ELSE R!NoRate],
-               today |-> seg.today, todayPub |-> FALSE, force |-> FALSE]
+               today |-> seg.today, todayPub |-> FALSE, force |-> FALSE, wr |-> TRUE]
 
 ErrRate == <<"error">>
 BocRate(seg, td) == LET r == R!Ref(World(seg), td) IN IF r.kind = "rate" THEN QuoteOf(seg, r.day) ELSE ErrRate
